@@ -23,6 +23,18 @@ def exprs(tier, seq=True):
     for c in ('%s == %s' % (A, B), A, '%s < 2' % A):
         for x, y in ((A, B), ('1', '0'), (s, K)):
             out.append('(%s if %s else %s)' % (x, c, y))
+    # depth 2 in the quick tier: right-nested operand with the same non-associative operator, comparison against a
+    # nested bitwise/arithmetic operator (precedence), three- and five-operand and/or chains
+    for op in ['-', '//', '%', '<<', '>>']:
+        out.append('(%s %s (%s %s 1))' % (B, op, A, op))
+        out.append('((%s %s %s) %s 1)' % (B, op, A, op))
+    for cmpop in ['==', '<', '>=']:
+        for inner in ['&', '|', '+', '>>']:
+            out.append('(%s %s (%s %s %s))' % (B, cmpop, A, inner, B))
+            out.append('((%s %s %s) %s %s)' % (A, inner, B, cmpop, B))
+    out.append('(%s or %s or %s)' % (A, B, K))
+    out.append('(%s and %s and %s)' % (A, B, K))
+    out.append('(%s == 0 or %s == 0 or %s == 3 or %s == 1 or %s == 2)' % (A, B, A, B, A))
     if tier == 'thorough':
         # depth 2: every operator pair in both nesting positions
         inner_pairs = [(A, B), (s, '1')]
@@ -139,12 +151,19 @@ def _chk(v):
 
 class Interp:
     """Executes a generated method body with Python semantics on an environment
-    {a, b, s, k, p}; raises OutOfDomain when an intermediate leaves [0, 2**32) or an
-    operation is undefined. Returns (new s, value written to q or None, locals)."""
+    {a, b, s, k, p} and decides domain membership: the property only speaks about input
+    sequences 'whose intermediate values stay inside the domain Verilog gives them'.  Verilog
+    gives every intermediate a width (IEEE 1364 5.4: the context width max(L(lhs), L(operands))
+    for context-determined operands, the self-determined width for shift amounts, comparison
+    operands and conditions; wires have their port width, integers / literals / parameters 32
+    bits) and no sign.  OutOfDomain is raised when the Python value of any sub-expression is
+    negative or does not fit the width Verilog evaluates it at, or an operation is undefined.
+    Returns (new s, value written to q or None)."""
 
     def __init__(self, p):
         self.p = p
         self.tree = ast.parse('\n'.join(p['body']))
+        self.wa, self.wb, self.wq = p['wa'], p['wb'], p['wq']
 
     def run(self, a, b, s):
         self.env = {'a': a, 'b': b, 's': s, 'k': self.p['k'], 'p': self.p['p']}
@@ -157,36 +176,64 @@ class Interp:
         for st in body:
             self.stmt(st)
 
+    # ---- widths (self-determined)
+    def sw(self, e):
+        if isinstance(e, (ast.Constant, ast.Name)):
+            return 32
+        if isinstance(e, ast.Attribute):
+            return 32
+        if isinstance(e, ast.Call):
+            f = e.func
+            if f.attr == 'get':
+                return {'a': self.wa, 'b': self.wb}[f.value.attr]
+            return 32
+        if isinstance(e, ast.BinOp):
+            if isinstance(e.op, (ast.LShift, ast.RShift)):
+                return self.sw(e.left)
+            return max(self.sw(e.left), self.sw(e.right))
+        if isinstance(e, ast.UnaryOp):
+            return 1 if isinstance(e.op, ast.Not) else self.sw(e.operand)
+        if isinstance(e, ast.Compare):
+            return 1
+        if isinstance(e, ast.BoolOp):
+            return max(self.sw(x) for x in e.values)
+        if isinstance(e, ast.IfExp):
+            return max(self.sw(e.body), self.sw(e.orelse))
+        raise NotImplementedError(ast.dump(e))
+
+    def top(self, e, target_width):
+        return self.ev(e, max(target_width, self.sw(e)))
+
     def stmt(self, st):
         if isinstance(st, ast.Assign):
-            v = _chk(self.ev(st.value))
+            v = self.top(st.value, 32)
             self.assign(st.targets[0], v)
         elif isinstance(st, ast.AugAssign):
-            cur = self.ev(st.target)
-            v = _chk(self.binop(type(st.op), cur, self.ev(st.value)))
+            fake = ast.BinOp(left=st.target, op=st.op, right=st.value)
+            v = self.top(fake, 32)
             self.assign(st.target, v)
         elif isinstance(st, ast.If):
-            if self.ev(st.test):
+            if self.top(st.test, 1):
                 self.block(st.body)
             else:
                 self.block(st.orelse)
         elif isinstance(st, ast.Match):
-            subj = self.ev(st.subject)
+            subj = self.top(st.subject, 1)
             for case in st.cases:
-                if self.match(case.pattern, subj) and (case.guard is None or self.ev(case.guard)):
+                if self.match(case.pattern, subj) and (case.guard is None or self.top(case.guard, 1)):
                     self.block(case.body)
                     break
         elif isinstance(st, ast.Expr):
             call = st.value
             assert isinstance(call, ast.Call) and call.func.attr in ('prepare', 'put')
-            v = self.ev(call.args[0])
-            self.q = int(_chk(v))
+            v = self.top(call.args[0], self.wq)
+            self.q = int(v)
         else:
             raise NotImplementedError(ast.dump(st))
 
     def match(self, pat, subj):
         if isinstance(pat, ast.MatchValue):
-            return subj == self.ev(pat.value)
+            return subj == self.top(pat.value, 1)
         if isinstance(pat, ast.MatchAs) and pat.pattern is None:
             return True
         if isinstance(pat, ast.MatchOr):
@@ -198,6 +245,13 @@ class Interp:
             self.env[tgt.attr] = int(v)
         else:
             self.loc[tgt.id] = int(v)
+
+    def fit(self, v, W):
+        if isinstance(v, bool):
+            return v
+        if v < 0 or v >= (1 << min(W, 32)) or v >= LIMIT:
+            raise OutOfDomain('value %d does not fit %d bits' % (v, W))
+        return v
 
     def binop(self, op, x, y):
         x, y = int(x), int(y)
@@ -229,13 +283,14 @@ class Interp:
             return x >> y
         raise NotImplementedError(op)
 
-    def ev(self, e):
+    def ev(self, e, W):
+        """value of e evaluated by Verilog at width W (>= its self-determined width)"""
         if isinstance(e, ast.Constant):
-            return e.value
+            return self.fit(e.value, W)
         if isinstance(e, ast.Name):
-            return self.loc[e.id]
+            return self.fit(self.loc[e.id], W)
         if isinstance(e, ast.Attribute):
-            return self.env[e.attr]
+            return self.fit(self.env[e.attr], W)
         if isinstance(e, ast.Call):
             f = e.func
             if f.attr == 'get':
@@ -244,32 +299,40 @@ class Interp:
                 return self.env['p']
             raise NotImplementedError(ast.dump(e))
         if isinstance(e, ast.BinOp):
-            return _chk(self.binop(type(e.op), _chk(self.ev(e.left)), _chk(self.ev(e.right))))
+            if isinstance(e.op, (ast.LShift, ast.RShift)):
+                l = self.ev(e.left, W)
+                r = self.ev(e.right, self.sw(e.right))
+            else:
+                l = self.ev(e.left, W)
+                r = self.ev(e.right, W)
+            return self.fit(self.binop(type(e.op), l, r), W)
         if isinstance(e, ast.UnaryOp):
-            v = self.ev(e.operand)
             if isinstance(e.op, ast.Invert):
-                return _chk(~int(v))
+                return self.fit(~int(self.ev(e.operand, W)), W)
             if isinstance(e.op, ast.Not):
-                return not v
+                return not self.ev(e.operand, self.sw(e.operand))
             raise NotImplementedError(ast.dump(e))
         if isinstance(e, ast.Compare):
-            l = self.ev(e.left)
-            r = self.ev(e.comparators[0])
+            w = max(self.sw(e.left), self.sw(e.comparators[0]))
+            l = self.ev(e.left, w)
+            r = self.ev(e.comparators[0], w)
             return {ast.Eq: l == r, ast.NotEq: l != r, ast.Lt: l < r, ast.LtE: l <= r, ast.Gt: l > r, ast.GtE: l >= r}[type(e.ops[0])]
         if isinstance(e, ast.BoolOp):
+            # Python semantics: the selected operand; all operands are evaluated at the context width
             if isinstance(e.op, ast.And):
                 v = True
                 for x in e.values:
-                    v = self.ev(x)
+                    v = self.ev(x, W)
                     if not v:
                         return v
                 return v
             v = False
             for x in e.values:
-                v = self.ev(x)
+                v = self.ev(x, W)
                 if v:
                     return v
             return v
         if isinstance(e, ast.IfExp):
-            return self.ev(e.body) if self.ev(e.test) else self.ev(e.orelse)
+            c = self.ev(e.test, self.sw(e.test))
+            return self.ev(e.body if c else e.orelse, W)
         raise NotImplementedError(ast.dump(e))
